@@ -28,7 +28,7 @@ pub const SHARD_SETS: &[&[&str]] = &[
 pub const LAYOUTS: &[&str] = &["p", "p+r", "r", "r+r", "p+p", "dup", "p+r+r"];
 pub const DEFAULT_SHARDS: &[&str] = &["-", "shard_0", "shard_1", "shard_2", "shard_9", "random", "random_healthy", "junk"];
 pub const DEFAULT_ROLES: &[&str] = &["-", "any", "primary", "replica", "junk", "Primary"];
-pub const MISC: &[&str] = &["none", "no-password", "no-password-authquery", "bad-regex", "plugins-without-parser", "min-pool-too-big", "rw-split-without-parser", "two-users", "bad-sharding-key", "authquery-user-password-only", "authquery-query-only"];
+pub const MISC: &[&str] = &["none", "no-password", "no-password-authquery", "bad-regex", "plugins-without-parser", "min-pool-too-big", "rw-split-without-parser", "two-users", "bad-sharding-key", "authquery-user-password-only", "authquery-query-only", "server-username-only", "server-password-only", "server-credentials"];
 
 fn host(shard_key: &str, k: usize, role: &str) -> String {
     // the host name carries the numeric VALUE of the shard key when it has one
@@ -127,6 +127,10 @@ fn pool_for(name: &str, shards: &[&str], layout: &str, default_shard: &str, defa
         "authquery-pool-level" => extra.push_str("auth_query = \"SELECT usename, passwd FROM pg_shadow WHERE usename='$1'\"\nauth_query_user = \"authuser\"\nauth_query_password = \"authpw\"\n"),
         "rw-split-without-parser" => extra.push_str("query_parser_read_write_splitting = true\n"),
         "min-pool-too-big" => pool.users[0].extra = "min_pool_size = 5\n".into(),
+        // credentials of its own on the server side, fully or partly given
+        "server-username-only" => pool.users[0].extra = "server_username = \"srv_alice\"\n".into(),
+        "server-password-only" => pool.users[0].extra = "server_password = \"srvpw\"\n".into(),
+        "server-credentials" => pool.users[0].extra = "server_username = \"srv_alice\"\nserver_password = \"srvpw\"\n".into(),
         "two-users" => pool.users.push(UserCfg { username: "bob".into(), password: Some("bobpw".into()), pool_size: 1, extra: String::new() }),
         "bad-sharding-key" => extra.push_str("query_parser_enabled = true\nautomatic_sharding_key = \"id\"\n"),
         _ => panic!("misc"),
@@ -215,7 +219,7 @@ pub fn scenario(shards: &[&str], layout: &str, default_shard: &str, default_role
         servers,
         actors: vec![s.actor(), env("admin", admin)],
         opts: Opts { horizon_ms: 120_000, max_events: 800, ..Opts::default() },
-        meta: serde_json::json!({"unservable": reasons, "n": n, "default_shard": default_shard}),
+        meta: serde_json::json!({"unservable": reasons, "n": n, "default_shard": default_shard, "misc": misc}),
     }
 }
 
@@ -309,6 +313,23 @@ pub fn oracle(sc: &Scenario, out: &Outcome) -> Vec<Violation> {
         }
         return vs;
     }
+    // the pooler logs in to the servers under the configured server-side name
+    let want_user = match sc.meta.get("misc").and_then(|m| m.as_str()) {
+        Some("server-username-only") | Some("server-credentials") => Some("srv_alice"),
+        Some("server-password-only") | Some("none") | Some("two-users") => Some("alice"),
+        _ => None,
+    };
+    if let Some(want) = want_user {
+        for e in log {
+            if let Rec::BStartup { conn, params } = &e.rec {
+                let got = params.iter().find(|(k, _)| k == "user").map(|(_, v)| v.clone()).unwrap_or_default();
+                if got != want && got != "bob" {
+                    vs.push(v("C15.server-login", format!("C15.server-login:{}", sc.meta["misc"].as_str().unwrap_or("")), format!("backend conn {} was logged in to as {:?}, the configuration says {:?}", conn, got, want)));
+                    break;
+                }
+            }
+        }
+    }
     // servable configuration: every addressed shard is served by that shard's servers
     for e in log {
         if let Rec::BExec { conn, sql, .. } = &e.rec {
@@ -397,7 +418,7 @@ pub fn build(tier: &str) -> SimCheck {
         oracle: Box::new(oracle),
         bound: 0,
         limits: Limits { max_wall_s: if thorough { 2400.0 } else { 55.0 }, ..Default::default() },
-        rule: "configuration grammar: 16 shard-id sets (contiguous up to 12 shards, not from 0, gaps, duplicates by value, non-numeric, unordered) x 7 server layouts (roles, two primaries, duplicate servers) x 8 default_shard values x 6 default_role values (incl. a capitalised one) (quick: one dimension varied at a time around the base, full cross of shard sets x default_shard) + two-pool files (first pool clean or with auth_query configured for itself only; every item of the grammar placed in the second pool) + 10 other defects (missing credentials, auth_query, half-configured auth_query, invalid regex, plugins / splitting without parser, min_pool_size, unqualified sharding key, two users); each file is loaded by the real config::parse + from_config in its own process; accepted files are then served: one transaction per (shard 0..n-1, role), one with no shard selected, two after SET SHARD to a number that is not configured (refused: the selection must be unchanged), one more per shard after an idle gap (health check on checkout), SHOW DATABASES/POOLS/STATS/SERVERS/BANS/CONFIG, BAN/UNBAN".into(),
+        rule: "configuration grammar: 16 shard-id sets (contiguous up to 12 shards, not from 0, gaps, duplicates by value, non-numeric, unordered) x 7 server layouts (roles, two primaries, duplicate servers) x 8 default_shard values x 6 default_role values (incl. a capitalised one) (quick: one dimension varied at a time around the base, full cross of shard sets x default_shard) + two-pool files (first pool clean or with auth_query configured for itself only; every item of the grammar placed in the second pool) + server-side user name / password given fully or partly + 10 other defects (missing credentials, auth_query, half-configured auth_query, invalid regex, plugins / splitting without parser, min_pool_size, unqualified sharding key, two users); each file is loaded by the real config::parse + from_config in its own process; accepted files are then served: one transaction per (shard 0..n-1, role), one with no shard selected, two after SET SHARD to a number that is not configured (refused: the selection must be unchanged), one more per shard after an idle gap (health check on checkout), SHOW DATABASES/POOLS/STATS/SERVERS/BANS/CONFIG, BAN/UNBAN".into(),
         assumptions: vec!["reference predicate 'unservable' is the property's own list; rejecting a file is always safe".into()],
     }
 }
